@@ -1,4 +1,85 @@
-From Coq Require Import NArith List.
-From FF Require Import Lib.Word Gen.Consts_mm_vmm Vmm.Pt Vmm.PtProofs.
+(** Non-vacuity of the C05 theorems and concrete runs of the model. *)
+From Coq Require Import NArith List Lia Bool.
+From FF Require Import Lib.Word Gen.Consts_mm_vmm Vmm.Pt Vmm.PtMem Vmm.PtArith Vmm.PtTree Vmm.PtMap Vmm.PtTheorems
+     Vmm.PtInit Vmm.PtPdt Vmm.PtHist Vmm.PtKernel.
 Import ListNotations.
 Local Open Scope N_scope.
+
+Definition LO : N := 0x200000000.
+Definition KOFF : N := 0xffff800000000000.
+Definition boot : st := init_state LO 64 0 (map (fun k => LO + N.of_nat k) (seq 1 40)).
+
+(** .text (alloc+exec, unaligned end), .data (alloc+write), a boot section below the kernel offset, an empty one *)
+Definition secs : list section :=
+  [(6, KOFF + 0x100000, 0x2345); (3, KOFF + 0x104000, 0x1000); (2, 0x1000, 0x800); (7, KOFF + 0x200000, 0)].
+
+Example C05_inv_nonvacuous : Inv boot LO LO (own_root LO).
+Proof.
+  apply Inv_init.
+  - reflexivity.
+  - unfold LO. change (2 ^ 40) with 1099511627776. lia.
+  - unfold ofr, LO. cbn. repeat constructor; cbn; intuition discriminate.
+  - intros f Hin Hz. unfold LO in *. cbn in Hin. intuition (subst; try lia).
+Qed.
+
+Lemma small_cases (P : N -> Prop) n : (forall j, (j < n)%nat -> P (N.of_nat j)) -> forall j, j < N.of_nat n -> P j.
+Proof. intros H j Hj. rewrite <- (N2Nat.id j). apply H. lia. Qed.
+
+(** the hypotheses of C05_kernel_aspace hold for this state and section table *)
+Example C05_kernel_aspace_nonvacuous :
+  Inv boot LO LO (own_root LO) /\ prot boot = false /\ orc boot = LO + 1 :: map (fun k => LO + N.of_nat k) (seq 2 39) /\
+  Forall (sec_dom KOFF) (live_secs secs) /\
+  resv_lo <= last boot /\ last boot <= vmm_tempMappingAddr /\ last boot mod 4096 = 0 /\
+  (forall a, last boot <= a -> a < vmm_tempMappingAddr -> a mod 4096 = 0 -> translation boot LO (N.shiftr a 12) <> None).
+Proof.
+  split; [exact C05_inv_nonvacuous|]. split; [reflexivity|]. split; [reflexivity|].
+  split.
+  { change (live_secs secs) with [(6, KOFF + 0x100000, 0x2345); (3, KOFF + 0x104000, 0x1000); (2, 0x1000, 0x800)].
+    apply Forall_cons; [|apply Forall_cons; [|apply Forall_cons; [|constructor]]]; unfold sec_dom.
+    - right. split; [|split; [vm_compute; discriminate | vm_compute; discriminate]].
+      change (sec_n (KOFF + 0x100000) 0x2345) with (N.of_nat 3).
+      apply small_cases. intros j Hj. destruct j as [|[|[|j]]]; try lia; vm_compute; discriminate.
+    - right. split; [|split; [vm_compute; discriminate | vm_compute; discriminate]].
+      change (sec_n (KOFF + 0x104000) 0x1000) with (N.of_nat 1).
+      apply small_cases. intros j Hj. destruct j as [|j]; try lia; vm_compute; discriminate.
+    - left. reflexivity. }
+  split; [vm_compute; discriminate|]. split; [vm_compute; discriminate|]. split; [reflexivity|].
+  intros a H1 H2. exfalso. change (last boot) with vmm_tempMappingAddr in H1. lia.
+Qed.
+
+(** the run: W^X flags, frames (address - offset)/4096 + i, the low section unmapped, the new root active *)
+Example C05_setup_run :
+  match setup_kernel KOFF secs boot with
+  | Ok (s', err) =>
+      err = 0 /\ cr3 s' = N.shiftl (LO + 1) 12 /\
+      translation s' (LO + 1) (N.shiftr (KOFF + 0x100000) 12) = Some (0x100, 1) /\            (* .text: P, executable, read-only *)
+      translation s' (LO + 1) (N.shiftr (KOFF + 0x102000) 12) = Some (0x102, 1) /\            (* its last (partial) page *)
+      translation s' (LO + 1) (N.shiftr (KOFF + 0x103000) 12) = None /\                       (* the page after it *)
+      translation s' (LO + 1) (N.shiftr (KOFF + 0x104000) 12) = Some (0x104, 0x8000000000000003) /\ (* .data: P|RW|NX *)
+      translation s' (LO + 1) 1 = None /\                                                       (* below the offset *)
+      translation s' (LO + 1) (N.shiftr (KOFF + 0x200000) 12) = None                           (* size 0 *)
+  | Stray => False
+  end.
+Proof. vm_compute. repeat split; reflexivity. Qed.
+
+(** with two early reservations (MapRegion) the reserved pages keep their frames in the new space *)
+Example C05_reserved_run :
+  match map_region 0x5000 8192 3 boot with
+  | Ok (s1, _, _) =>
+      match setup_kernel KOFF secs s1 with
+      | Ok (s', err) =>
+          err = 0 /\ last s1 = vmm_tempMappingAddr - 8192 /\
+          translation s' (N.shiftr (cr3 s') 12) (N.shiftr (vmm_tempMappingAddr - 8192) 12) = Some (0x5000, 3) /\
+          translation s' (N.shiftr (cr3 s') 12) (N.shiftr (vmm_tempMappingAddr - 4096) 12) = Some (0x5001, 3) /\
+          translation s' (N.shiftr (cr3 s') 12) (N.shiftr vmm_tempMappingAddr 12) = None /\
+          kspec s1 LO KOFF secs (ixs (N.shiftr (vmm_tempMappingAddr - 4096) 12)) = Some (0x5001, 3)
+      | Stray => False
+      end
+  | Stray => False
+  end.
+Proof. vm_compute. repeat split; reflexivity. Qed.
+
+(** the geometry lemma on the .text section *)
+Example C05_geometry_example :
+  sec_cur (KOFF + 0x100000) = 0xffff800000100 /\ sec_n (KOFF + 0x100000) 0x2345 = 3 /\ sec_frame KOFF (KOFF + 0x100000) = 0x100.
+Proof. vm_compute. repeat split; reflexivity. Qed.
